@@ -28,6 +28,14 @@ const caseTimeout = 40 * time.Second
 // arguments after the suite name
 var suiteArgs []string
 
+// Subcommands that are not correspondence suites (fact extractor, child-process modes of
+// suites that must run the real code in a separate process).  They receive the arguments
+// after their name and return the exit status.
+var subcommands = map[string]func(args []string) int{}
+
+// cleanups run after the last case (child processes, scratch directories).
+var cleanups []func()
+
 type out struct {
 	w *bufio.Writer
 	n int
@@ -88,6 +96,9 @@ func main() {
 	}
 	name := flag.Arg(0)
 	suiteArgs = flag.Args()[1:]
+	if sub, ok := subcommands[name]; ok {
+		os.Exit(sub(flag.Args()[1:]))
+	}
 	su, ok := suites[name]
 	if !ok {
 		fmt.Fprintln(os.Stderr, "unknown suite", flag.Arg(0))
@@ -131,6 +142,9 @@ func main() {
 		su.gen(*tier, &rng{s: *seed}, runOne)
 	}
 	o.w.Flush()
+	for _, c := range cleanups {
+		c()
+	}
 	fmt.Fprintf(os.Stderr, "harness: %s wrote %d cases\n", flag.Arg(0), o.n)
 }
 
